@@ -18,7 +18,7 @@ def run(ctx):
         "transport carries) = ok, counted under stat:reported_failure:<stage>; decoded without error but different, or a panic anywhere = violation. "
         "Payload lengths: every length 0..300, 500-520, 1000-1030, 4090-4100, 8180-8192 (65520-65540 for NULL/PRIVATE); contents: keyed, "
         "seeded random, all-0x00, all-0xff, '.', '\\\\', '\"', ' ', control bytes, mixed special bytes, counter, \\DDD look-alikes; "
-        "6 tunnel domains of 4..120 characters x 3 question-name lengths (up to the 253 character maximum); seq/ack {0,1,255,256,32767,65535}+random; "
+        "8 tunnel domains of 4..200 characters (with 188 and 200 a host-name record carries 60 encoded characters or fewer) x 3 question-name lengths (up to the 253 character maximum); seq/ack {0,1,255,256,32767,65535}+random; "
         "user ids 0..1295 (the server's table size). A case is distinct by all of these; it is non-trivial when the pipeline ran to the final comparison "
         "(or panicked); reported failures are counted separately and are not counted as non-trivial.",
         ["responses are restricted to what the server can form: user ids 0..1295, the downstream-codec probe carries util.DownloadCodecCheck, the "
